@@ -20,7 +20,8 @@ RULE = (
     "index operands) and barriers must equal the sequential history of the original program filtered by the rule "
     "(copy: core N-1 only; generic: core 0 only; everything else: every core); no barrier deadlock. Variants: functions grouped in a "
     "nested builtin.module; streaming accelerators registered under per-configuration names (acc_a / acc_b) with the same program "
-    "compiled for the configuration with the names swapped just before in the same process (compilation history). "
+    "compiled for the configuration with the names swapped just before in the same process (compilation history); contexts built by "
+    "tools/config_parser.parse_config from a two-core hardware configuration (XDMA core and ALU core in either order). "
     "non-trivial = dispatching changed the IR and >= 1 dispatchable op executed; distinct = hash of (program, environments)."
 )
 
@@ -44,7 +45,7 @@ def gen_case(rng, tier):
     envs[0]["stall"] = False
     case = {"ast": ast, "cores": n, "envs": envs, "pin": rng.random() < 0.2 and not prof["multiblock"]}
     if prof["streams"] and rng.random() < 0.5:
-        case["bind"] = rng.choice(["ab", "ba"])  # the streaming accelerators are registered under names of this configuration
+        case["bind"] = rng.choice(["ab", "ba", "config-xa", "config-ax"])  # the streaming accelerators are registered under names of this configuration
     if rng.random() < 0.15:
         case["nested_module"] = True  # the functions are grouped in a module inside the top-level module (per-cluster code)
     return case
@@ -114,7 +115,11 @@ def execute(case):
     if case.get("nested_module"):
         src = "builtin.module {\n" + src.replace("builtin.module {", "builtin.module @cluster0 {", 1) + "\n}"
     bind = None
-    if case.get("bind"):
+    if str(case.get("bind", "")).startswith("config"):
+        # the context is the one snaxc builds from a hardware configuration: two cores, one with the XDMA and one with the ALU,
+        # listed in either order
+        bind = {"__config__": ["xdma", "alu"] if case["bind"] == "config-xa" else ["alu", "xdma"]}
+    elif case.get("bind"):
         # this cluster configuration names its two streaming accelerators acc_a and acc_b; which of them is the XDMA differs
         # from one compilation of this process to the next
         x, a = ("acc_a", "acc_b") if case["bind"] == "ab" else ("acc_b", "acc_a")
@@ -123,7 +128,7 @@ def execute(case):
         bind = {x: "xdma", a: "alu"}
     n = case["cores"]
     spec = f"dispatch-regions{{nb_cores={n}}}" + (",function-constant-pinning" if case.get("pin") else "")
-    if bind:
+    if bind and "__config__" not in bind:
         # the history of this process: the same program was compiled for the other configuration (names swapped) just before;
         # what a compilation produces must not depend on the compilations before it
         try:
@@ -185,6 +190,8 @@ def shrink(case):
         yield {k: v for k, v in case.items() if k != "nested_module"}
     if case.get("bind") == "ba":
         yield dict(case, bind="ab")
+    if case.get("bind") == "config-ax":
+        yield dict(case, bind="config-xa")
     if len(case["envs"]) > 1:
         for i in range(len(case["envs"])):
             yield dict(case, envs=[case["envs"][i]])
@@ -215,11 +222,12 @@ def sample_of(case):
 
 
 META = {
-    "real": ["snaxc/transforms/dispatch_regions.py", "snaxc/util/dispatching_rules.py", "xdsl function-constant-pinning (third party, thorough tier)"],
+    "real": ["snaxc/transforms/dispatch_regions.py", "snaxc/util/dispatching_rules.py", "snaxc/accelerators/acc_context.py (registry)", "snaxc/tools/config_parser.py (contexts built from a hardware configuration)", "xdsl function-constant-pinning (third party)"],
     "stub": [
         "IR interpreter (simsnax/interp.py), multi-core scheduler + cluster barrier + symbolic memory (simsnax/cluster.py)",
         "the dispatch rule used by the oracle is re-stated in /verif (copy -> last core, linalg.generic -> core 0)",
         "xDSL 0.70.0 with the irdl_options shim",
+        "dacite (not installed): the repo's config dataclasses are built directly, dacite.from_dict is a pass-through",
     ],
     "assumptions": [
         "A5 the barrier releases when all nb_cores cores arrived",
